@@ -16,7 +16,7 @@ import vlib
 
 LEVEL = "model_checking"
 
-ALPHA = ["a", "a$b", "x=1", "!", "{", "}", "for", "case", "esac", "in", "if", "elif", "then", "else", "fi", "while", "until",
+ALPHA = ["a", "a$b", "break", "x=1", "!", "{", "}", "for", "case", "esac", "in", "if", "elif", "then", "else", "fi", "while", "until",
          "do", "done", ";", "&", "&&", "||", "|", ";;", "(", ")", "\n", ">", "2>", "((1))"]
 BROKEN = ["'u", "\"u", "${u", "$(u", "$((u", "`u", "((1) ))", "((1)", "$((1) ))", "${u:", "${u:-'}", "\"$(u\"", "\"${u\"", "${", "${}"]
 
@@ -27,7 +27,7 @@ def tla_seq(xs):
 
 BASES = ["for a in a ; do a ; done", "for a do a ; done", "for a \n in a a \n do a \n done", "if a ; then a ; elif a ; then a ; else a ; fi",
          "while a ; do a ; done", "until a \n do a \n done > a", "case a in a ) a ;; esac", "case a in ( a | a ) a ;; a ) esac",
-         "a ( ) { a ; }", "{ a ; } > a", "( a ) | ! a && a", "x=1 a > a 2> a &", "((1)) ; a", "! a | a || { a ; }", "if a ; then ( a ) fi"]
+         "a ( ) { a ; }", "break ; a", "{ a ; } > a", "( a ) | ! a && a", "x=1 a > a 2> a &", "((1)) ; a", "! a | a || { a ; }", "if a ; then ( a ) fi"]
 
 
 def gen(R, maxlen, mutations, simulate=None, name="rec", bases=None):
